@@ -1,10 +1,48 @@
 """C14 - all entry points load the same waveform."""
+import os
 from .. import core, gen
 from . import vcdfam
 
 PID = "C14"
 LEVEL = "translation_validation"
 MODES = ["st", "rd", "rb", "hc", "hp", "hf:0", "hf:1", "mt:4:0", "rbc:16", "rbc:7", "hbc:16:0", "hbc:5:1"]
+MALFORMED = {"sigmoid_tb.vcd"}
+KNOWN_MT = {"CGRA.vcd"}        # known_findings.jsonl, C14 / D8-implicit-zero-then-0-corpus
+
+
+def _parse_full(o):
+    parts = o.split(" ")
+    head = [p for p in parts if p.startswith("H=") or p.startswith("M=")]
+    tt = [p for p in parts if p.startswith("tt=")][0][3:].split(",")
+    sigs = {}
+    for p in parts:
+        if p[:1] == "s" and "=" in p and p.split("=", 1)[0][1:].isdigit():
+            k, v = p.split("=", 1)
+            sigs[k] = [] if v == "-" else [tuple(e.split(":", 2)) for e in v.split(",")]
+    return head, tt, sigs
+
+
+def duplicated_time_zero(f):
+    """True when multi-threaded loading of f differs from single-threaded loading exactly by a second entry for
+    time 0 at the head of the time table (all later time indices one higher)"""
+    outs = core.run_cases(core.WV_DEBUG, ["file st %s full" % f, "file mt %s full" % f], "c14k", timeout=600)
+    if not (outs[0].startswith("H=") and outs[1].startswith("H=")):
+        return False
+    ha, ta, sa = _parse_full(outs[0].split(" bl=")[0])
+    hb, tb, sb = _parse_full(outs[1].split(" bl=")[0])
+    if ha != hb or tb[:2] != ["0", "0"] or tb[1:] != ta or set(sa) != set(sb):
+        return False
+    for k in sa:
+        d = []
+        for (i, kind, v) in sb[k]:
+            n = int(i, 16)
+            e = ("%x" % (n - 1 if n >= 1 else 0), kind, v)
+            if d and d[-1][1:] == e[1:]:
+                continue
+            d.append(e)
+        if d != sa[k]:
+            return False
+    return True
 FILE_MODES = ["st", "mt", "rd", "rbc:16", "rbc:7", "hc", "hc:1", "hbc:16:0", "hbc:16:1", "hbc:3:1", "hf:0", "hf:1", "hf:1:1"]
 RULE = ("every generated VCD (generator of C01, incl. CRLF, $dumpvars, hashed ids, values before the first timestamp) is loaded "
         "through all entry points: read_with_options (mmap, multi_thread false/true), read_from_reader over Cursor and over "
@@ -120,7 +158,21 @@ def run(res, rng, tier, model_ok, replay=None):
             res.distribution["corpus-" + ext] = res.distribution.get("corpus-" + ext, 0) + len(group)
             digests = set(g.split(" bl=")[0] for g in group)
             bls = set(g.split(" bl=")[1] for g in group if " bl=" in g)
-            if len(digests) > 1 or len(bls) > 1 or not group[0].startswith("digest="):
+            # sigmoid_tb.vcd is malformed (it declares a real and emits strings; upstream keeps its diff test ignored):
+            # loading fails, and has to fail alike, through every entry point
+            uniform_failure = len(digests) == 1 and not group[0].startswith("digest=") and os.path.basename(f) in MALFORMED
+            mt_like = [k for k, m in enumerate(FILE_MODES) if m == "mt" or m.startswith("hf:1")]
+            st_like = [k for k in range(len(FILE_MODES)) if k not in mt_like]
+            if len(digests) > 1 and os.path.basename(f) in KNOWN_MT and len(bls) <= 1 \
+                    and len(set(group[k].split(" bl=")[0] for k in st_like)) == 1 \
+                    and len(set(group[k].split(" bl=")[0] for k in mt_like)) == 1 and duplicated_time_zero(f):
+                # known finding D8-implicit-zero-then-0 (C03) on this corpus file: the multi-threaded entry points list time 0
+                # twice; everything else is equal (confirmed on the full observations), the other entry points agree
+                res.notes.append("%s: multi-threaded entry points show the known finding D8-implicit-zero-then-0" % f)
+                continue
+            if uniform_failure:
+                res.notes.append("%s does not load (%s through every entry point): malformed corpus file" % (f, group[0][:20]))
+            elif len(digests) > 1 or len(bls) > 1 or not group[0].startswith("digest="):
                 bad = [m + "=>" + g[:60] for m, g in zip(FILE_MODES, group)]
                 res.violations.append(("file <mode> " + f, "; ".join(bad)[:1500], "all entry points agree",
                                        "entry points disagree on a corpus file"))
@@ -182,4 +234,5 @@ def run(res, rng, tier, model_ok, replay=None):
 
 
 def check_known(entry):
-    return False
+    f = entry["case"].split(" ")[-1]
+    return os.path.exists(f) and duplicated_time_zero(f)
